@@ -9,4 +9,6 @@ EXPLANATION = LEVEL_TEXT
 TRUSTED = []
 
 def jobs(tier):
-    return seqcases.array_jobs(tier, "C05") + _C02.table_jobs(tier, "C05") + _C03.tree_jobs(tier, "C05")
+    box = [Job("C05.Box.k2", "C05", "K2", "Pointer/k2.c", "h_box", ["Box_Del", "Box_Assign", "Box_Ref", "Box_Deref", "Box_New"], link=["src/Exception.c", "src/Num.c", "stubs/throw.c"],
+               replace_calls=["exception_throw:cv_throw"], unwind=4, group="Box.k2", assumptions=["del(pointee) hands the pointee to the collector (GC_Rem, C06)"])]
+    return box + seqcases.array_jobs(tier, "C05") + _C02.table_jobs(tier, "C05") + _C03.tree_jobs(tier, "C05")
